@@ -185,6 +185,22 @@ static Eigen::Matrix<T, Eigen::Dynamic, Eigen::Dynamic> family(const std::string
             for (int j = 0; j <= i; j++)
                 A(i, j) = A(j, i) = (LD)(r.below(7) - 3);
     }
+    else if (fam == "trap")
+    {
+        // block diagonal of graded pivot traps [[0,1,0],[1,1,M],[0,M,M or 1]], M = 10^2..10^7 (exactly representable): the zero
+        // diagonal entry has its column maximum 1 in a row that holds the huge entry M; accepting a_rr = 1 as a 1x1 pivot because
+        // it passes alpha*lambda (instead of alpha*sigma) gives element growth M
+        for (int b = 0; b + 2 < n; b += 3)
+        {
+            const LD M = std::pow(10.0L, (LD)(2 + r.below(sizeof(T) == 4 ? 4 : 6)));
+            A(b, b + 1) = A(b + 1, b) = 1;
+            A(b + 1, b + 1) = 1;
+            A(b + 1, b + 2) = A(b + 2, b + 1) = M;
+            A(b + 2, b + 2) = r.below(2) ? M : 1.0L;
+        }
+        for (int i = (n / 3) * 3; i < n; i++)
+            A(i, i) = 2;
+    }
     else
     {
         // "bk3": a pivot with a small diagonal next to a large off-diagonal and a large diagonal further on: exercises
@@ -201,17 +217,19 @@ static void measured_real(const Desc& d, int tycode)
 {
     typedef Eigen::Matrix<T, Eigen::Dynamic, Eigen::Dynamic> Mat;
     Rng r((uint64_t) d.i("seed", 1) * 1231 + tycode);
-    const char* fams[8] = {"spd", "indef", "zerodiag", "antidiag", "blockdiag", "graded", "integer", "bk3"};
+    const char* fams[9] = {"spd", "indef", "zerodiag", "antidiag", "blockdiag", "graded", "integer", "bk3", "trap"};
     const int count = (int) d.i("count", 200);
     for (int t = 0; t < count; t++)
     {
-        const std::string fam = fams[t % 8];
+        const std::string fam = fams[t % 9];
         int n = 1 + r.below((int) d.i("nmax", 80));
         if (t % 11 == 0)
             n = 1 + r.below(4);
+        if (fam == "trap")
+            n = 3 * (1 + r.below(4));
         Mat A = family<T>(fam, n, r);
         T sigma = 0;
-        int sk = r.below(4);
+        int sk = fam == "trap" ? 0 : r.below(4);
         if (sk == 1)
             sigma = (T) r.sym();
         else if (sk == 2)
